@@ -94,6 +94,44 @@ func ruleLoopVarAlias(c *Ctx, r *Report, rule string, scope map[*ssa.Function]bo
 						}
 					case *ssa.MakeInterface:
 						retained = ""
+					case *ssa.MakeClosure:
+						// a closure that captures the variable and is kept for later (appended to a list of deferred
+						// steps, stored): when it runs, the variable holds the last element
+						captures := false
+						for _, b := range x.Bindings {
+							if b == ssa.Value(al) {
+								captures = true
+							}
+						}
+						if captures && x.Referrers() != nil {
+							for _, r2 := range *x.Referrers() {
+								switch y := r2.(type) {
+								case *ssa.Store:
+									if y.Val == ssa.Value(x) {
+										retained = "captured by a closure that is stored"
+									}
+								case *ssa.MapUpdate:
+									retained = "captured by a closure that is put in a map"
+								case *ssa.Call:
+									if bi, ok := y.Call.Value.(*ssa.Builtin); ok && bi.Name() == "append" {
+										retained = "captured by a closure that is appended to a list"
+									}
+								}
+							}
+							// appended through a variadic slice literal
+							for _, r2 := range *x.Referrers() {
+								if st, ok := r2.(*ssa.Store); ok && st.Val == ssa.Value(x) {
+									if ia, ok := st.Addr.(*ssa.IndexAddr); ok {
+										if arr, isAlloc := ia.X.(*ssa.Alloc); isAlloc {
+											retained = "captured by a closure that is appended to a list"
+											if l.blocks[arr.Block()] && !listEscapesIteration(arr, l) {
+												retained = "" // a list of steps made and run inside the iteration
+											}
+										}
+									}
+								}
+							}
+						}
 					}
 					if retained != "" {
 						n++
@@ -120,4 +158,39 @@ func everyIterationReaches(f *ssa.Function, site ssa.Instruction) (bool, string)
 		return false, "an iteration can complete without it"
 	}
 	return true, ""
+}
+
+// listEscapesIteration: the slice made from the per-iteration array arr flows into a value that lives across iterations
+// (a loop-carried variable via append, a store to memory allocated outside the loop).
+func listEscapesIteration(arr *ssa.Alloc, l *natLoop) bool {
+	if arr.Referrers() == nil {
+		return false
+	}
+	for _, rf := range *arr.Referrers() {
+		sl, ok := rf.(*ssa.Slice)
+		if !ok || sl.Referrers() == nil {
+			continue
+		}
+		for _, r2 := range *sl.Referrers() {
+			switch y := r2.(type) {
+			case *ssa.Call:
+				if bi, ok := y.Call.Value.(*ssa.Builtin); ok && bi.Name() == "append" {
+					return true // appended to another list
+				}
+			case *ssa.Store:
+				if y.Val == ssa.Value(sl) {
+					if a, ok := y.Addr.(*ssa.Alloc); !ok || !l.blocks[a.Block()] {
+						return true
+					}
+				}
+			case *ssa.Phi:
+				if y.Block() == l.header {
+					return true
+				}
+			case *ssa.MapUpdate, *ssa.Return, *ssa.Send:
+				return true
+			}
+		}
+	}
+	return false
 }
